@@ -105,3 +105,44 @@ Theorem invoked_iff ops m id : let e := fst (crun [] ops) in
 Proof. intros e. apply dispatch_iff. apply (reachable_nodup ops []). constructor. Qed.
 Theorem no_duplicate_delivery ops m : NoDup (dispatch (fst (crun [] ops)) m).
 Proof. apply dispatch_nodup. apply (reachable_nodup ops []). constructor. Qed.
+
+(* ---------- the four handler families ---------- *)
+Definition hub_ok (h : hub) : Prop := forall k, NoDup (ids (hget h k)).
+Lemma hget_hset_same h k v : hget (hset h k v) k = v. Proof. destruct k; reflexivity. Qed.
+Lemma hget_hset_other h k k' v : k' <> k -> hget (hset h k v) k' = hget h k'.
+Proof. destruct k, k'; simpl; intros H; try reflexivity; contradiction. Qed.
+Lemma hget_hremove h id k : hget (hremove h id) k = remove (hget h k) id. Proof. destruct k; reflexivity. Qed.
+Lemma hkind_dec (a b : hkind) : {a = b} + {a <> b}. Proof. decide equality. Qed.
+Lemma hstep_ok h o : hub_ok h -> hub_ok (fst (hstep h o)).
+Proof.
+  intros H. destruct o as [k id opts | id | k m]; simpl; auto.
+  - intros k'. destruct (hkind_dec k' k) as [-> | Hne]; [rewrite hget_hset_same; now apply register_nodup | rewrite hget_hset_other; auto].
+  - intros k. rewrite hget_hremove. now apply remove_nodup.
+Qed.
+Theorem hub_reachable_ok ops : forall h, hub_ok h -> hub_ok (fst (hrun h ops)).
+Proof.
+  induction ops as [|o ops IH]; intros h H; simpl; auto.
+  destruct (hstep h o) as [h1 d] eqn:E1. destruct (hrun h1 ops) as [h2 ds] eqn:E2. simpl.
+  change h2 with (fst (h2, ds)); rewrite <- E2. apply IH. change h1 with (fst (h1, d)); rewrite <- E1. now apply hstep_ok.
+Qed.
+Lemma hub0_ok : hub_ok hub0. Proof. intros k; destruct k; constructor. Qed.
+(* in every family: invoked iff registered in that family and matching; never twice *)
+Theorem hub_invoked_iff ops k m id : let h := fst (hrun hub0 ops) in
+  In id (dispatch (hget h k) m) <-> exists o, lookup (hget h k) id = Some o /\ is_match o m = true.
+Proof. intros h. apply dispatch_iff. apply (hub_reachable_ok ops hub0 hub0_ok). Qed.
+Theorem hub_no_duplicate ops k m : NoDup (dispatch (hget (fst (hrun hub0 ops)) k) m).
+Proof. apply dispatch_nodup. apply (hub_reachable_ok ops hub0 hub0_ok). Qed.
+(* closing a channel removes it from every family, and touches no other channel in any family *)
+Theorem hub_close_removes h id k : lookup (hget (hremove h id) k) id = None.
+Proof. rewrite hget_hremove. apply lookup_remove_same. Qed.
+Theorem hub_close_frame h id j k : j <> id -> lookup (hget (hremove h id) k) j = lookup (hget h k) j.
+Proof. intros H. rewrite hget_hremove. now apply lookup_remove_other. Qed.
+(* so after a close no event of any kind reaches the channel, whatever was registered for it *)
+Theorem hub_closed_is_silent h id k m : hub_ok h -> ~ In id (dispatch (hget (hremove h id) k) m).
+Proof.
+  intros H Hin. assert (Hok : NoDup (ids (hget (hremove h id) k))) by (rewrite hget_hremove; apply remove_nodup, H).
+  apply (dispatch_iff _ m id Hok) in Hin as (o & Hl & _). rewrite hub_close_removes in Hl. discriminate.
+Qed.
+(* registering a handler of one kind leaves the handlers of the other kinds alone *)
+Theorem hub_register_other_kinds h k id o k' : k' <> k -> hget (fst (hstep h (HOn k id o))) k' = hget h k'.
+Proof. intros H. simpl. now apply hget_hset_other. Qed.
